@@ -477,6 +477,9 @@ func (h *Handle) DelCurrent(ctx context.Context, it storage.Iter) error {
 type batchOp struct {
 	m  Mut
 	it storage.Iter
+	// the caller's own slices: an engine that keeps references (memkv) must get these, not the copies
+	// in m, or aliasing between a caller's buffer and the stored value would be hidden by the seam
+	k, v, o []byte
 }
 
 type Batch struct {
@@ -504,28 +507,28 @@ func (b *Batch) ttl(t int64) int64 {
 }
 
 func (b *Batch) PutIfNotExist(key, val []byte, ttl int64) {
-	b.ops = append(b.ops, batchOp{m: b.h.W.mut("pine", key, val, nil, ttl)})
+	b.ops = append(b.ops, batchOp{m: b.h.W.mut("pine", key, val, nil, ttl), k: key, v: val})
 	if b.inner != nil {
 		b.inner.PutIfNotExist(key, val, b.ttl(ttl))
 	}
 }
 
 func (b *Batch) CAS(key, newVal, oldVal []byte, ttl int64) {
-	b.ops = append(b.ops, batchOp{m: b.h.W.mut("cas", key, newVal, oldVal, ttl)})
+	b.ops = append(b.ops, batchOp{m: b.h.W.mut("cas", key, newVal, oldVal, ttl), k: key, v: newVal, o: oldVal})
 	if b.inner != nil {
 		b.inner.CAS(key, newVal, oldVal, b.ttl(ttl))
 	}
 }
 
 func (b *Batch) Put(key, val []byte, ttl int64) {
-	b.ops = append(b.ops, batchOp{m: b.h.W.mut("put", key, val, nil, ttl)})
+	b.ops = append(b.ops, batchOp{m: b.h.W.mut("put", key, val, nil, ttl), k: key, v: val})
 	if b.inner != nil {
 		b.inner.Put(key, val, b.ttl(ttl))
 	}
 }
 
 func (b *Batch) Del(key []byte) {
-	b.ops = append(b.ops, batchOp{m: b.h.W.mut("del", key, nil, nil, 0)})
+	b.ops = append(b.ops, batchOp{m: b.h.W.mut("del", key, nil, nil, 0), k: key})
 	if b.inner != nil {
 		b.inner.Del(key)
 	}
@@ -575,13 +578,13 @@ func (b *Batch) Commit(ctx context.Context) error {
 			for _, o := range b.ops {
 				switch o.m.Op {
 				case "pine":
-					inner.PutIfNotExist(o.m.Key, o.m.Val, b.ttl(o.m.TTL))
+					inner.PutIfNotExist(o.k, o.v, b.ttl(o.m.TTL))
 				case "cas":
-					inner.CAS(o.m.Key, o.m.Val, o.m.Old, b.ttl(o.m.TTL))
+					inner.CAS(o.k, o.v, o.o, b.ttl(o.m.TTL))
 				case "put":
-					inner.Put(o.m.Key, o.m.Val, b.ttl(o.m.TTL))
+					inner.Put(o.k, o.v, b.ttl(o.m.TTL))
 				case "del":
-					inner.Del(o.m.Key)
+					inner.Del(o.k)
 				case "delcur":
 					inner.DelCurrent(o.it)
 				}
